@@ -30,6 +30,10 @@ MODULES = [
     "vfc_records",     # dataclass (mutable + frozen) with methods
 ]
 
+#: extra modules used only by the whole-tool checks (C16, C18): several user exceptions with ``Raises:`` docs,
+#: sets of strings as results, a class hierarchy with a base-class parameter type.
+EXTRA_MODULES = ["vfx_ledger", "vfx_tags", "vfx_shapes"]
+
 #: modules whose public functions are pure and whose classes keep state only in instances —
 #: i.e. *all* of them; kept as a separate name so a check can say what it relies on.
 NO_HIDDEN_STATE = list(MODULES)
@@ -72,3 +76,17 @@ def materialise_variant(name: str, dst_dir: str, strip_annotations: bool = False
     with open(os.path.join(dst_dir, new_name + ".py"), "w", encoding="utf-8") as fh:
         fh.write(src)
     return new_name
+
+
+def materialise_package(name: str, dst_dir: str, package: str = "vfpkg", siblings: int = 4, strip_annotations: bool = False) -> str:
+    """Puts corpus module *name* into a package *package* (with ``__init__.py``) next to *siblings* other corpus modules;
+    returns the dotted module name to pass to pynguin (project path stays *dst_dir*)."""
+    pkg_dir = os.path.join(dst_dir, package)
+    os.makedirs(pkg_dir, exist_ok=True)
+    with open(os.path.join(pkg_dir, "__init__.py"), "w", encoding="utf-8") as fh:
+        fh.write('"""Corpus package."""\n')
+    materialise_variant(name, pkg_dir, strip_annotations)
+    others = [m for m in MODULES + EXTRA_MODULES if m != name][:siblings]
+    for other in others:
+        materialise(other, pkg_dir)
+    return f"{package}.{name}"
